@@ -191,6 +191,9 @@ func (wt writeTxn) Create(v interface{}) error {
 	if t == nil {
 		t = interfaceMapType
 	}
+	if !vv.IsValid() {
+		return fmt.Errorf("create value is nil, expected type %s", t.String())
+	}
 	if vv.Type() != t {
 		return fmt.Errorf("create value is of type %s, expected type %s", vv.Type().String(), t.String())
 	}
@@ -231,6 +234,9 @@ func (wt writeTxn) Update(v interface{}) error {
 	t := wt.st.t
 	if t == nil {
 		t = interfaceMapType
+	}
+	if !vv.IsValid() {
+		return fmt.Errorf("update value is nil, expected type %s", t.String())
 	}
 	if vv.Type() != t {
 		return fmt.Errorf("update value is of type %s, expected type %s", vv.Type().String(), t.String())
